@@ -486,7 +486,7 @@ def q(idc, val):
     return [2, idc, Fraction(val), 0]
 
 
-def gen_rhs(rng, allowed, tvar, qcount, states=(), rational=False):
+def gen_rhs(rng, allowed, tvar, qcount, states=(), rational=False, pderiv=0.08):
     """random right-hand side over the allowed base variables; derivative atoms only of `states`; returns tree"""
     allow_deriv = bool(states)
 
@@ -494,7 +494,7 @@ def gen_rhs(rng, allowed, tvar, qcount, states=(), rational=False):
         r = rng.random()
         if r < 0.55:
             return [3, rng.choice(allowed)]
-        if r < 0.85:
+        if r < 0.93 - pderiv:
             qcount[0] += 1
             return q(qcount[0], rng.choice(['2', '0.5', '3', '1', '-1', '10']))
         if r < 0.93 and allow_deriv:
@@ -555,6 +555,7 @@ def gen_case(seed, profile='edit'):
     pool = []
     # a well-formed core: one definition per variable (except time), referring to earlier variables, states and time
     kinds = {}
+    core_eq = {}
     for y in range(nbase):
         if y == tvar:
             continue
@@ -567,10 +568,31 @@ def gen_case(seed, profile='edit'):
             qcount[0] += 1
             rhs = q(qcount[0], rng.choice(['1', '2', '0.25']))
         else:
-            rhs = gen_rhs(rng, allowed or [tvar], tvar, qcount, states=[i for i in kinds if kinds[i] == 'ode'],
-                          rational=(profile == 'value'))
+            st = [i for i in kinds if kinds[i] == 'ode']
+            pd = 0.08
+            if profile == 'value' and rng.random() < 0.5:
+                # chains of derivatives (d x/dt defined through d z/dt, a variable defined through d x/dt): acyclic, through
+                # states of lower index only, and frequent enough to be queried
+                if kinds[y] == 'ode':
+                    st = [i for i in st if i < y]
+                pd = 0.3
+            rhs = gen_rhs(rng, allowed or [tvar], tvar, qcount, states=st, rational=(profile == 'value'), pderiv=pd)
+        core_eq[y] = len(pool)
         pool.append({'lhs': ['d', y, tvar, 1] if kinds[y] == 'ode' else ['v', y], 'rhs': rhs})
     ncore = len(pool)
+    chain_query = None
+    if profile == 'value' and rng.random() < 0.4:
+        # a forced chain of derivatives: d s2/dt mentions d s1/dt (s1 < s2 states) and a computed variable mentions d s2/dt
+        sts = [i for i in sorted(kinds) if kinds[i] == 'ode']
+        algs = [i for i in sorted(kinds) if kinds[i] == 'alg']
+        if len(sts) >= 2 and algs:
+            s1, s2 = sts[0], sts[-1]
+            c = algs[-1]
+            e2, ec = pool[core_eq[s2]], pool[core_eq[c]]
+            e2['rhs'] = [4, e2['rhs'], [8, [3, s1], [3, tvar], 1]]
+            ec['rhs'] = [4, ec['rhs'], [5, q(qcount[0] + 1, '2'), [8, [3, s2], [3, tvar], 1]]]
+            qcount[0] += 1
+            chain_query = c
     # alternatives and malformed entries
     for e in range(rng.randint(3, 6)):
         r = rng.random()
@@ -601,6 +623,8 @@ def gen_case(seed, profile='edit'):
     for e in range(ncore):
         if rng.random() < (0.97 if profile in ('query', 'value') else 0.85):
             ops.append(['addeq', e, True])
+    if chain_query is not None:
+        ops.append(['q_value', chain_query])
     nops = rng.randint(8, 25)
     queries = ['q_eqs', 'q_states', 'q_graph', 'q_ngraph', 'q_vars', 'q_free', 'q_derivs', 'q_derived']
     weights = PROFILES[profile]
